@@ -93,6 +93,7 @@ def families():
             for hc in range(g.n_holes(c)):
                 hd = g.n_holes(d) - 1
                 out.append((f"{c}[{hc}]/{d}[{hd}]<x>", [(c, hc), (d, hd)], "x"))
+                out.append((f"{c}[{hc}]/{d}[{hd}]<x-nl>", [(c, hc), (d, hd)], "x-nl"))
     return out
 
 
